@@ -1285,8 +1285,506 @@ pub fn make_refi2(name: &str, cfg: &Value, first: &Candle) -> Option<Box<dyn Ref
 	})
 }
 
+// ---------------------------------------------------------------------------------------------
+// batch 3
+
+struct Mfi {
+	zone: f64,
+	tps: Vec<(f64, f64)>, // (tp, volume) history incl. the initial candle first
+	period: usize,
+	cu: CrossRef,
+	cl: CrossRef,
+	mag: f64,
+	t: f64,
+}
+impl RefI for Mfi {
+	fn next(&mut self, c: &Candle, _got: &[f64]) -> (Vec<Ap>, Vec<Sig>) {
+		self.tps.push((c.tp() as f64, c.volume as f64));
+		self.t += 1.0;
+		self.mag = self.mag.max(c.volume as f64);
+		let n = self.tps.len();
+		// flows of the last `period` candles, each against its predecessor (the initial candle is its own predecessor)
+		let mut pos = crate::ap::KSum::new();
+		let mut neg = crate::ap::KSum::new();
+		for i in (n.saturating_sub(self.period)).max(1)..n {
+			let (tp, v) = self.tps[i];
+			let ptp = self.tps[i - 1].0;
+			if tp > ptp {
+				pos.add(v);
+			} else if tp < ptp {
+				neg.add(v);
+			}
+		}
+		if self.tps.len() > 4 * self.period + 64 {
+			let cut = self.tps.len() - self.period - 2;
+			self.tps.drain(..cut);
+		}
+		let e = crate::errm::radius(crate::reg::Class::Accum, self.period as f64, self.t, self.period as f64 * self.mag, 4.0);
+		let (pmf, nmf) = (Ap::new(pos.get(), e), Ap::new(neg.get(), e));
+		// code: money flow ratio = 1 when the negative flow is exactly zero
+		let value = match nmf.is_zero() {
+			Tri::No if nmf.lo() > 0.0 => {
+				let mfr = pmf / nmf;
+				Ap::ONE - Ap::ONE / (Ap::ONE + mfr)
+			}
+			_ if neg.get() == 0.0 && pos.get() == 0.0 && self.mag == 0.0 => Ap::exact(0.5),
+			_ => Ap::undefined(),
+		};
+		let upper = Ap::rounded(1.0 - self.zone, 1.0);
+		let lower = Ap::exact(self.zone);
+		let xu = self.cu.cross(value, upper);
+		let xl = self.cl.cross(value, lower);
+		let t = |s: &Sig, want: i8| match s {
+			Sig::Full(x) => Tri::from(*x == want),
+			_ => Tri::Maybe,
+		};
+		let enters = Sig::from_tri(t(&xl, -1), t(&xu, 1));
+		let leaves = Sig::from_tri(t(&xl, 1), t(&xu, -1));
+		(vec![upper, value, lower], vec![enters, leaves])
+	}
+}
+
+struct Sar {
+	step: f64,
+	max: f64,
+	trend: i8,
+	inc: u64,
+	low: f64,
+	high: f64,
+	sar: Ap,
+	prev_hl: (f64, f64),
+	prev_trend: i8,
+	forked: bool,
+}
+impl RefI for Sar {
+	fn next(&mut self, c: &Candle, got: &[f64]) -> (Vec<Ap>, Vec<Sig>) {
+		let (h, l) = (c.high as f64, c.low as f64);
+		if self.forked {
+			return (vec![Ap::undefined(), Ap::undefined()], vec![Sig::Exempt]);
+		}
+		if self.trend > 0 {
+			if self.high < h {
+				self.high = h;
+				self.inc += 1;
+			}
+			match Ap::exact(l).lt(self.sar) {
+				Tri::Yes => {
+					self.trend = -1;
+					self.low = l;
+					self.inc = 1;
+					self.sar = Ap::exact(self.high);
+				}
+				Tri::No => {}
+				Tri::Maybe => self.forked = true,
+			}
+		} else {
+			if self.low > l {
+				self.low = l;
+				self.inc += 1;
+			}
+			match Ap::exact(h).gt(self.sar) {
+				Tri::Yes => {
+					self.trend = 1;
+					self.high = h;
+					self.inc = 1;
+					self.sar = Ap::exact(self.low);
+				}
+				Tri::No => {}
+				Tri::Maybe => self.forked = true,
+			}
+		}
+		if self.forked {
+			let _ = got;
+			return (vec![Ap::undefined(), Ap::undefined()], vec![Sig::Exempt]);
+		}
+		let trend = self.trend;
+		let sar = self.sar;
+		let af = Ap::rounded(self.max.min(((self.step as V) * (self.inc as V)) as f64), 0.0);
+		if trend > 0 {
+			let nx = sar + af * (Ap::exact(self.high) - sar);
+			self.sar = nx.min(Ap::exact(l)).min(Ap::exact(self.prev_hl.1));
+		} else {
+			let nx = sar + af * (Ap::exact(self.low) - sar);
+			self.sar = nx.max(Ap::exact(h)).max(Ap::exact(self.prev_hl.0));
+		}
+		self.prev_hl = (h, l);
+		let sig = if self.prev_trend != trend { trend } else { 0 };
+		self.prev_trend = trend;
+		(vec![sar, Ap::exact(trend as f64)], vec![Sig::Full(sig)])
+	}
+}
+
+struct PivotRev {
+	right: usize,
+	up: RevRef,
+	lo: RevRef,
+	past_h: Delay,
+	past_l: Delay,
+	hprice: f64,
+	lprice: f64,
+}
+impl RefI for PivotRev {
+	fn next(&mut self, c: &Candle, _got: &[f64]) -> (Vec<Ap>, Vec<Sig>) {
+		let ph = self.past_h.next(ex(c.high)).v;
+		let pl = self.past_l.next(ex(c.low)).v;
+		let (swh, _) = self.up.next(ex(c.high));
+		let (_, swl) = self.lo.next(ex(c.low));
+		// exact inputs: the detectors are decidable
+		let swh = swh == Tri::Yes;
+		let swl = swl == Tri::Yes;
+		if swh {
+			self.hprice = ph;
+		}
+		let le = swh || (c.high as f64) <= self.hprice;
+		if swl {
+			self.lprice = pl;
+		}
+		let se = swl || (c.low as f64) >= self.lprice;
+		(vec![], vec![Sig::Full(se as i8 - le as i8)])
+	}
+}
+
+struct PriceChannel {
+	sigma: f64,
+	h: Extremum,
+	l: Extremum,
+}
+impl RefI for PriceChannel {
+	fn next(&mut self, c: &Candle, _got: &[f64]) -> (Vec<Ap>, Vec<Sig>) {
+		let h = self.h.next(ex(c.high));
+		let l = self.l.next(ex(c.low));
+		let mid = Ap::rounded((h.v + l.v) * 0.5, 1.0);
+		let delta = h - mid;
+		let upper = mid + delta * self.sigma;
+		let lower = mid - delta * self.sigma;
+		let s0 = Sig::from_tri(ex(c.high).ge(upper), ex(c.low).le(lower));
+		(vec![upper, lower], vec![s0])
+	}
+}
+
+struct Rsi {
+	source: Source,
+	zone: f64,
+	prev: f64,
+	pos: MaRef,
+	neg: MaRef,
+	cu: CrossRef,
+	cl: CrossRef,
+}
+impl RefI for Rsi {
+	fn next(&mut self, c: &Candle, _got: &[f64]) -> (Vec<Ap>, Vec<Sig>) {
+		let s = c.source(self.source);
+		let ch = (s - self.prev as V) as f64;
+		self.prev = s as f64;
+		let pos = self.pos.next(Ap::exact(ch.max(0.0)));
+		let neg = -self.neg.next(Ap::exact(ch.min(0.0)));
+		let sum = pos + neg;
+		let value = match sum.gtf(0.0) {
+			Tri::Yes => pos / sum,
+			Tri::No => Ap::exact(0.5),
+			Tri::Maybe => Ap::undefined(),
+		};
+		let xl = self.cl.cross(value, Ap::exact(self.zone));
+		let xu = self.cu.cross(value, Ap::rounded(1.0 - self.zone, 1.0));
+		let t = |s: &Sig, want: i8| match s {
+			Sig::Full(x) => Tri::from(*x == want),
+			_ => Tri::Maybe,
+		};
+		let s0 = Sig::from_tri(t(&xl, -1), t(&xu, 1));
+		let s1 = Sig::from_tri(t(&xl, 1), t(&xu, -1));
+		(vec![value], vec![s0, s1])
+	}
+}
+
+struct Rvi {
+	zone: f64,
+	prev_close: f64,
+	swma1: MaRef,
+	sma1: MaRef,
+	swma2: MaRef,
+	sma2: MaRef,
+	ma: MaRef,
+	cross: CrossRef,
+}
+impl RefI for Rvi {
+	fn next(&mut self, c: &Candle, _got: &[f64]) -> (Vec<Ap>, Vec<Sig>) {
+		let co = Ap::exact((c.close - self.prev_close as V) as f64);
+		let hl = Ap::exact((c.high - c.low) as f64);
+		self.prev_close = c.close as f64;
+		let a = self.sma1.next(self.swma1.next(co));
+		let b = self.sma2.next(self.swma2.next(hl));
+		let rvi = match b.is_zero() {
+			Tri::Yes => Ap::exact(0.0),
+			Tri::No => a / b,
+			Tri::Maybe => Ap::undefined(),
+		};
+		let sig = self.ma.next(rvi);
+		let s1 = self.cross.cross(rvi, sig);
+		let z = self.zone;
+		let (up, dn) = match &s1 {
+			Sig::Full(1) => (Tri::Yes, Tri::No),
+			Sig::Full(-1) => (Tri::No, Tri::Yes),
+			Sig::Full(_) => (Tri::No, Tri::No),
+			_ => (Tri::Maybe, Tri::Maybe),
+		};
+		// code polarity: +1 when crossing downwards above the zone, -1 when crossing upwards below it
+		let s2 = Sig::from_tri(dn.and(rvi.gtf(z)).and(sig.gtf(z)), up.and(rvi.ltf(-z)).and(sig.ltf(-z)));
+		(vec![rvi, sig], vec![s1, s2])
+	}
+}
+
+struct Smi {
+	source: Source,
+	zone: f64,
+	tsi: Box<dyn RefM>,
+	ma: MaRef,
+	cross: CrossRef,
+}
+impl RefI for Smi {
+	fn next(&mut self, c: &Candle, _got: &[f64]) -> (Vec<Ap>, Vec<Sig>) {
+		let s = src(c, self.source);
+		let tsi = self.tsi.next_f(s.v, f64::NAN);
+		let sig = self.ma.next(tsi);
+		let x = self.cross.cross(tsi, sig);
+		let (up, dn) = match &x {
+			Sig::Full(1) => (Tri::Yes, Tri::No),
+			Sig::Full(-1) => (Tri::No, Tri::Yes),
+			Sig::Full(_) => (Tri::No, Tri::No),
+			_ => (Tri::Maybe, Tri::Maybe),
+		};
+		let s0 = Sig::from_tri(up.and(sig.ltf(-self.zone)), dn.and(sig.gtf(self.zone)));
+		(vec![tsi, sig, tsi - sig], vec![s0])
+	}
+}
+
+struct Stoch {
+	zone: f64,
+	h: Extremum,
+	l: Extremum,
+	ma1: MaRef,
+	ma2: MaRef,
+	ca1: CrossRef,
+	cu1: CrossRef,
+	ca2: CrossRef,
+	cu2: CrossRef,
+	cross: CrossRef,
+}
+fn stoch_k(close: f64, h: f64, l: f64) -> Ap {
+	if h == l {
+		Ap::exact(0.5)
+	} else {
+		(Ap::exact(close) - Ap::exact(l)) / (Ap::exact(h) - Ap::exact(l))
+	}
+}
+impl RefI for Stoch {
+	fn next(&mut self, c: &Candle, _got: &[f64]) -> (Vec<Ap>, Vec<Sig>) {
+		let h = self.h.next(ex(c.high));
+		let l = self.l.next(ex(c.low));
+		let k = stoch_k(c.close as f64, h.v, l.v);
+		let f1 = self.ma1.next(k);
+		let f2 = self.ma2.next(f1);
+		let z = Ap::exact(self.zone);
+		let uz = Ap::rounded(1.0 - self.zone, 1.0);
+		let s0 = Sig::from_tri(self.ca1.above(f1, z), self.cu1.under(f1, uz));
+		let s1 = Sig::from_tri(self.ca2.above(f2, z), self.cu2.under(f2, uz));
+		let s2 = self.cross.cross(f1, f2);
+		(vec![f1, f2], vec![s0, s1, s2])
+	}
+}
+
+struct Trix {
+	source: Source,
+	tma: MaRef,
+	prev: Ap,
+	sig: MaRef,
+	rev: RevRef,
+	c1: CrossRef,
+	c2: CrossRef,
+}
+impl RefI for Trix {
+	fn next(&mut self, c: &Candle, _got: &[f64]) -> (Vec<Ap>, Vec<Sig>) {
+		let t = self.tma.next(src(c, self.source));
+		let value = t - self.prev;
+		self.prev = t;
+		let s0 = self.rev.signal(value);
+		let line = self.sig.next(value);
+		let s1 = self.c1.cross(value, line);
+		let s2 = self.c2.cross(value, Ap::exact(0.0));
+		(vec![value, line], vec![s0, s1, s2])
+	}
+}
+
+struct TrendStrength {
+	source: Source,
+	zone: f64,
+	offset: usize,
+	n: usize,
+	hist: Vec<f64>,
+	init: f64,
+	t: f64,
+	mag: f64,
+	cu: CrossRef,
+	ca: CrossRef,
+	rev: RevRef,
+}
+impl RefI for TrendStrength {
+	fn next(&mut self, c: &Candle, _got: &[f64]) -> (Vec<Ap>, Vec<Sig>) {
+		let s = c.source(self.source) as f64;
+		self.hist.push(s);
+		self.t += 1.0;
+		self.mag = self.mag.max(s.abs());
+		if self.hist.len() > 4 * self.n + 64 {
+			let cut = self.hist.len() - self.n - 2;
+			self.hist.drain(..cut);
+		}
+		let n = self.n;
+		let len = self.hist.len();
+		let at = |age: usize| if age < len { self.hist[len - 1 - age] } else { self.init };
+		// Pearson correlation between time (newest = n, oldest = 1) and the last n source values
+		let nf = n as f64;
+		let mx = (nf + 1.0) / 2.0;
+		let my = crate::ap::ksum((0..n).map(|a| at(a))) / nf;
+		let sxy = crate::ap::ksum((0..n).map(|a| ((nf - a as f64) - mx) * (at(a) - my)));
+		let sxx = nf * (nf * nf - 1.0) / 12.0;
+		let syy = crate::ap::ksum((0..n).map(|a| (at(a) - my) * (at(a) - my)));
+		// the implementation works with running sums of y and y^2 and a WMA: accumulator errors relative to the history magnitude
+		let e_acc = crate::errm::radius(crate::reg::Class::Nested, nf, self.t, self.mag, 8.0);
+		let num = Ap::new(sxy, e_acc * nf * nf);
+		let den2 = Ap::new(sxx * syy, sxx * crate::errm::radius(crate::reg::Class::Accum, nf, self.t, 2.0 * nf * self.mag * self.mag, 8.0));
+		let value = if den2.lo() > 0.0 { num / den2.sqrt() } else { Ap::undefined() };
+		// code polarity and rule (doc differs, see DESIGN 5 #16)
+		let under = self.cu.under(value, Ap::exact(self.zone));
+		let above = self.ca.above(value, Ap::exact(-self.zone));
+		let s0 = Sig::from_tri(under, above);
+		let (up, lo) = self.rev.next(value);
+		let past = at(self.offset);
+		// reverse = lower - upper; r < 0 at a peak of the value, r > 0 at a trough; compared against the *source* window
+		let upper_sig = up.and(Tri::from(past >= self.zone));
+		let lower_sig = lo.and(Tri::from(past <= -self.zone));
+		let s1 = Sig::from_tri(upper_sig, lower_sig);
+		(vec![value], vec![s0, s1])
+	}
+}
+
+struct TrueStrength {
+	source: Source,
+	zone: f64,
+	tsi: Box<dyn RefM>,
+	ema: MaRef,
+	cu: CrossRef,
+	ca: CrossRef,
+	c1: CrossRef,
+	c2: CrossRef,
+}
+impl RefI for TrueStrength {
+	fn next(&mut self, c: &Candle, _got: &[f64]) -> (Vec<Ap>, Vec<Sig>) {
+		let s = src(c, self.source);
+		let tsi = self.tsi.next_f(s.v, f64::NAN);
+		let sig = self.ema.next(tsi);
+		let s0 = Sig::from_tri(self.cu.under(tsi, Ap::exact(-self.zone)), self.ca.above(tsi, Ap::exact(self.zone)));
+		let s1 = self.c1.cross(tsi, Ap::exact(0.0));
+		let s2 = self.c2.cross(tsi, sig);
+		(vec![tsi, sig], vec![s0, s1, s2])
+	}
+}
+
+struct Woodies {
+	source: Source,
+	lag: i64,
+	turbo: Box<dyn RefM>,
+	trend: Box<dyn RefM>,
+	cross: CrossRef,
+	count: Option<i64>,
+}
+impl RefI for Woodies {
+	fn next(&mut self, c: &Candle, _got: &[f64]) -> (Vec<Ap>, Vec<Sig>) {
+		let s = src(c, self.source);
+		let turbo = self.turbo.next_f(s.v, f64::NAN) * (1.0 / 1.5);
+		let trend = self.trend.next_f(s.v, f64::NAN) * (1.0 / 1.5);
+		let x = self.cross.cross(trend, Ap::exact(0.0));
+		let s0 = match x {
+			Sig::Full(0) => {
+				// count += sign(trend)
+				let (neg, _z, pos) = trend.signs();
+				self.count = match (self.count, neg, pos) {
+					(Some(n), false, true) if trend.lo() > 0.0 => Some(n + 1),
+					(Some(n), true, false) if trend.hi() < 0.0 => Some(n - 1),
+					(Some(n), false, false) => Some(n),
+					_ => None,
+				};
+				Sig::Full(0)
+			}
+			Sig::Full(sg) => {
+				self.count = Some(sg as i64);
+				// code: |count| == lag at the step of the crossing itself
+				Sig::Full(if self.lag == 1 { sg } else { 0 })
+			}
+			_ => {
+				self.count = None;
+				Sig::Exempt
+			}
+		};
+		(vec![turbo, trend], vec![s0])
+	}
+}
+
+pub fn make_refi3(name: &str, cfg: &Value, first: &Candle) -> Option<Box<dyn RefI>> {
+	let z = Ap::exact(0.0);
+	Some(match name {
+		"MoneyFlowIndex" => Box::new(Mfi { zone: cfg_f(cfg, "zone"), tps: vec![(first.tp() as f64, first.volume as f64)], period: cfg_p(cfg, "period"), cu: CrossRef::default(), cl: CrossRef::default(), mag: 0.0, t: 0.0 }),
+		"ParabolicSAR" => Box::new(Sar { step: cfg_f(cfg, "af_step"), max: cfg_f(cfg, "af_max"), trend: 1, inc: 1, low: first.low as f64, high: first.high as f64, sar: ex(first.low), prev_hl: (first.high as f64, first.low as f64), prev_trend: 0, forked: false }),
+		"PivotReversalStrategy" => {
+			let (l, r) = (cfg_p(cfg, "left"), cfg_p(cfg, "right"));
+			Box::new(PivotRev { right: r, up: RevRef::new(l, r, ex(first.high)), lo: RevRef::new(l, r, ex(first.low)), past_h: Delay::new(r, ex(first.high)), past_l: Delay::new(r, ex(first.low)), hprice: 0.0, lprice: 0.0 })
+		}
+		"PriceChannelStrategy" => {
+			let p = cfg_p(cfg, "period");
+			Box::new(PriceChannel { sigma: cfg_f(cfg, "sigma"), h: Extremum::new(p, ex(first.high), true), l: Extremum::new(p, ex(first.low), false) })
+		}
+		"RelativeStrengthIndex" => {
+			let zone = cfg_f(cfg, "zone");
+			Box::new(Rsi { source: cfg_src(cfg, "source"), zone, prev: first.source(cfg_src(cfg, "source")) as f64, pos: MaRef::from_cfg(cfg, "ma", z), neg: MaRef::from_cfg(cfg, "ma", z), cu: CrossRef::new(Ap::rounded(0.5 - (1.0 - zone), 2.0)), cl: CrossRef::new(Ap::rounded(0.5 - zone, 1.0)) })
+		}
+		"RelativeVigorIndex" => {
+			let (p1, p2) = (cfg_p(cfg, "period1"), cfg_p(cfg, "period2"));
+			let hl = Ap::exact((first.high - first.low) as f64);
+			Box::new(Rvi { zone: cfg_f(cfg, "zone"), prev_close: first.close as f64, swma1: MaRef::new("swma", p2, z), sma1: MaRef::new("sma", p1, z), swma2: MaRef::new("swma", p2, hl), sma2: MaRef::new("sma", p1, hl), ma: MaRef::from_cfg(cfg, "signal", z), cross: CrossRef::default() })
+		}
+		"SMIErgodicIndicator" => {
+			let s = src(first, cfg_src(cfg, "source"));
+			Box::new(Smi { source: cfg_src(cfg, "source"), zone: cfg_f(cfg, "zone"), tsi: make_ref("TSI", &Par::LL(cfg_p(cfg, "period2") as P, cfg_p(cfg, "period1") as P), &In::V(s.v as V))?, ma: MaRef::from_cfg(cfg, "signal", z), cross: CrossRef::default() })
+		}
+		"StochasticOscillator" => {
+			let p = cfg_p(cfg, "period");
+			let k0 = stoch_k(first.close as f64, first.high as f64, first.low as f64);
+			Box::new(Stoch { zone: cfg_f(cfg, "zone"), h: Extremum::new(p, ex(first.high), true), l: Extremum::new(p, ex(first.low), false), ma1: MaRef::from_cfg(cfg, "ma", k0), ma2: MaRef::from_cfg(cfg, "signal", k0), ca1: CrossRef::default(), cu1: CrossRef::default(), ca2: CrossRef::default(), cu2: CrossRef::default(), cross: CrossRef::default() })
+		}
+		"Trix" => {
+			let s = src(first, cfg_src(cfg, "source"));
+			Box::new(Trix { source: cfg_src(cfg, "source"), tma: MaRef::new("tma", cfg_p(cfg, "period1"), s), prev: s, sig: MaRef::from_cfg(cfg, "signal", z), rev: RevRef::new(1, 1, z), c1: CrossRef::new(z), c2: CrossRef::new(z) })
+		}
+		"TrendStrengthIndex" => {
+			let s = first.source(cfg_src(cfg, "source")) as f64;
+			let zone = cfg_f(cfg, "zone");
+			Box::new(TrendStrength { source: cfg_src(cfg, "source"), zone, offset: cfg_p(cfg, "reverse_offset"), n: cfg_p(cfg, "period"), hist: Vec::new(), init: s, t: 0.0, mag: s.abs(), cu: CrossRef::new(Ap::exact(0.0 - zone)), ca: CrossRef::new(Ap::exact(0.0 + zone)), rev: RevRef::new(1, 2, z) })
+		}
+		"TrueStrengthIndex" => {
+			let s = src(first, cfg_src(cfg, "source"));
+			Box::new(TrueStrength { source: cfg_src(cfg, "source"), zone: cfg_f(cfg, "zone"), tsi: make_ref("TSI", &Par::LL(cfg_p(cfg, "period2") as P, cfg_p(cfg, "period1") as P), &In::V(s.v as V))?, ema: MaRef::new("ema", cfg_p(cfg, "period3"), z), cu: CrossRef::default(), ca: CrossRef::default(), c1: CrossRef::default(), c2: CrossRef::default() })
+		}
+		"WoodiesCCI" => {
+			let s = src(first, cfg_src(cfg, "source"));
+			Box::new(Woodies { source: cfg_src(cfg, "source"), lag: cfg_p(cfg, "s1_lag") as i64, turbo: make_ref("CCI", &Par::L(cfg_p(cfg, "period1") as P), &In::V(s.v as V))?, trend: make_ref("CCI", &Par::L(cfg_p(cfg, "period2") as P), &In::V(s.v as V))?, cross: CrossRef::default(), count: Some(0) })
+		}
+		_ => return None,
+	})
+}
+
 pub fn make_refi(name: &str, cfg: &Value, first: &Candle) -> Option<Box<dyn RefI>> {
 	if let Some(r) = make_refi2(name, cfg, first) {
+		return Some(r);
+	}
+	if let Some(r) = make_refi3(name, cfg, first) {
 		return Some(r);
 	}
 	let z = Ap::exact(0.0);
